@@ -41,17 +41,36 @@ def value_id(p, x, last):
     return 99
 
 
-def build_classes():
+# how the declarations are spread over a class and its base class (invisible remotely):
+#   ifaces = (dbusInterfaces of the base class, of the subclass); sub = ids declared on the subclass;
+#   anon = ids whose DBusProperty does not name its interface; order = order of the initial assignments
+LAYOUTS = {
+    'base-both': dict(ifaces=(('org.v.I1', 'org.v.I2'), ()), sub=(4, 5, 6), anon=(), order=(1, 2, 3, 4, 5, 6)),
+    'split': dict(ifaces=(('org.v.I1',), ('org.v.I2',)), sub=(2, 6), anon=(), order=(1, 2, 3, 4, 5, 6)),
+    'split-rev': dict(ifaces=(('org.v.I2',), ('org.v.I1',)), sub=(1, 3, 4, 5), anon=(), order=(6, 5, 4, 3, 2, 1)),
+    'sub-first': dict(ifaces=(('org.v.I1',), ('org.v.I2',)), sub=(2, 6), anon=(3, 4, 5, 6), order=(2, 6, 5, 1, 3, 4)),
+    'anon': dict(ifaces=((), ('org.v.I2', 'org.v.I1')), sub=(1, 3, 5), anon=(3, 4, 5, 6), order=(4, 3, 1, 6, 2, 5)),
+}
+
+
+def build_classes(layout='base-both'):
+    lay = LAYOUTS[layout]
+
     def prop(pid):
         iface, name, sig, access, emits, attr, base = DECL[pid]
         return interface.Property(name, sig, readable=access in ('read', 'readwrite'), writeable=access in ('write', 'readwrite'),
                                   emitsOnChange={'true': True, 'false': False, 'invalidates': 'invalidates'}[emits])
-    i1 = interface.DBusInterface('org.v.I1', *[prop(p) for p in DECL if DECL[p][0] == 'org.v.I1'], noRegister=True)
-    i2 = interface.DBusInterface('org.v.I2', *[prop(p) for p in DECL if DECL[p][0] == 'org.v.I2'], noRegister=True)
-    base_attrs = {'dbusInterfaces': [i1, i2]}
+    ifs = {n: interface.DBusInterface(n, *[prop(p) for p in DECL if DECL[p][0] == n], noRegister=True)
+           for n in ('org.v.I1', 'org.v.I2')}
+    base_attrs = {}
     sub_attrs = {}
+    if lay['ifaces'][0]:
+        base_attrs['dbusInterfaces'] = [ifs[n] for n in lay['ifaces'][0]]
+    if lay['ifaces'][1]:
+        sub_attrs['dbusInterfaces'] = [ifs[n] for n in lay['ifaces'][1]]
     for pid, (iface, name, sig, access, emits, attr, base) in DECL.items():
-        (base_attrs if base else sub_attrs)[attr] = objects.DBusProperty(name, interface=iface)
+        d = objects.DBusProperty(name) if pid in lay['anon'] else objects.DBusProperty(name, interface=iface)
+        (sub_attrs if pid in lay['sub'] else base_attrs)[attr] = d
     Base = type('Base', (objects.DBusObject,), base_attrs)
     Sub = type('Sub', (Base,), sub_attrs)
     return Sub
@@ -107,12 +126,12 @@ def variant_sigs(raw_body, sig):
 
 
 class PropsDriver:
-    def __init__(self):
+    def __init__(self, layout='base-both'):
         self.conn = Conn()
         self.h = objects.DBusObjectHandler(self.conn)
-        Sub = build_classes()
+        Sub = build_classes(layout)
         self.o = Sub('/obj')
-        for pid in DECL:
+        for pid in LAYOUTS[layout]['order']:
             setattr(self.o, DECL[pid][5], concrete(pid, 0))
         self.h.exportObject(self.o)
         del self.conn.sent[:]
@@ -203,7 +222,7 @@ def core_freeze(d):
 
 
 def make_driver(params, acts):
-    return PropsDriver()
+    return PropsDriver((params or {}).get('layout', 'base-both'))
 
 
 replay_file = core.replay_file
@@ -214,7 +233,7 @@ def trace_cfg(params=None):
 
 
 def rerecord(params, acts):
-    drv = PropsDriver()
+    drv = make_driver(params, acts)
     tr = [({'n': 'Init'}, drv.project())]
     for n, a in acts:
         drv.apply(n, a)
@@ -238,15 +257,18 @@ def run(tier, seed):
         chk.violation('model: Props %s %s' % res.violation, dict(kind='TLC', trace=repr(res.trace[-2:])))
     chk.notes['graph'] = [len(g.nodes), g.nedges]
     paths = list(core.edge_cover_paths(g))
-    if len(paths) > (20000 if thorough else 4000):
-        paths = rng.sample(paths, 20000 if thorough else 4000)
-    core.replay_paths(chk, g, paths, lambda acts: PropsDriver(), 'edges', 'c17', {})
-    core.replay_paths(chk, g, list(core.random_walks(g, 2000 if thorough else 400, 10, rng)), lambda acts: PropsDriver(), 'walks', 'c17', {})
+    cap = 20000 if thorough else 3000
+    for lay in LAYOUTS:
+        ps = paths if len(paths) <= cap else rng.sample(paths, cap)
+        core.replay_paths(chk, g, ps, lambda acts, lay=lay: PropsDriver(lay), 'edges/' + lay, 'c17', {'layout': lay})
+        core.replay_paths(chk, g, list(core.random_walks(g, 2000 if thorough else 300, 10, rng)),
+                          lambda acts, lay=lay: PropsDriver(lay), 'walks/' + lay, 'c17', {'layout': lay})
     # code -> spec: random histories with all three values
-    batch = []
     ifaces = ['org.v.I1', 'org.v.I2', '', 'x.Unknown']
     names = ['level', 'name', 'secret', 'ratio', 'flag', 'nope']
-    for _ in range(300 if thorough else 60):
+    batches = {}
+    for i in range(300 if thorough else 75):
+        lay = list(LAYOUTS)[i % len(LAYOUTS)]
         acts = []
         for _ in range(rng.randint(4, 14)):
             r = rng.random()
@@ -265,12 +287,18 @@ def run(tier, seed):
             else:
                 acts.append(('GetAll', (rng.choice(['org.v.I1', 'org.v.I2', 'x.Unknown']),)))
         try:
-            batch.append(rerecord({}, acts))
+            batches.setdefault(lay, []).append(rerecord({'layout': lay}, acts))
         except Exception:
-            chk.violation('recording: implementation raised', dict(kind='exception', module='c17', trace=core.traceback_str()))
+            chk.violation('recording: implementation raised (layout %s)' % lay,
+                          dict(kind='exception', module='c17', params={'layout': lay}, acts=[list(a) for a in acts],
+                               trace=core.traceback_str()))
             break
-    core.validate_and_report(chk, 'Props', OBS, ACTIONS, batch, trace_cfg(), ['NeverRevealed', 'SignalOnlyIfDeclared'], 'c17', {},
-                             'random', nproc=8, extra=extra)
+    batch = []
+    for lay, b in batches.items():
+        batch.extend(b)
+    for lay, b in batches.items():
+        core.validate_and_report(chk, 'Props', OBS, ACTIONS, b, trace_cfg(), ['NeverRevealed', 'SignalOnlyIfDeclared'], 'c17',
+                                 {'layout': lay}, 'random/' + lay, nproc=4, extra=extra)
     chk.sample({'recorded': [a for a, s in batch[0]][:6]})
     tr = [list(x) for x in rerecord({}, [('Assign', (1, 2)), ('Get', ('org.v.I1', 'level')), ('GetAll', ('org.v.I2',))])]
     for j, (a, st) in enumerate(tr):
@@ -279,8 +307,11 @@ def run(tier, seed):
             break
     rej, _ = core.validate_traces('Props', OBS, [[tuple(x) for x in tr]], ACTIONS, cfg_consts=trace_cfg(), nproc=1, extra=extra)
     chk.canary = {'what': 'variant type of one recorded Get reply changed', 'rejected': bool(rej)}
-    chk.assumptions = ['one object with six declarations (same name on two interfaces, base class / subclass split, all access '
-                       'modes, all notification modes, basic types i u s y d b incl. a double holding a Python int)',
+    chk.notes['layouts'] = list(LAYOUTS)
+    chk.assumptions = ['one object with six declarations (same name on two interfaces, all access modes, all notification modes, '
+                       'basic types i u s y d b incl. a double holding a Python int) in five class layouts: both interfaces on '
+                       'the base class; one interface per class (either way round, the same-named property split between base '
+                       'class and subclass); descriptors that do not name their interface; different first-assignment orders',
                        'interface "" is only used with names declared once']
     return chk.finish(
         rule='all histories of local assignment and remote Get/Set/GetAll (right, empty and unknown interface; right and unknown '
